@@ -82,6 +82,9 @@ func (v *Verifier) verifyFunc(fn *ssa.Function, fc *FuncContract) (res *FuncResu
 		fr.freeVars = append(fr.freeVars, t)
 		fr.registerImmCell(fv, t)
 	}
+	for _, ig := range fc.Ignore {
+		c.assumed["obligations not generated in contract of "+shortKey(fc.Key)+": ignore "+ig] = true
+	}
 	fr.recovers = hasRecover(fn)
 	isInit := fn.Name() == "init" && fn.Synthetic != ""
 	fr.isInit = isInit
